@@ -13,7 +13,7 @@ From Core Require FnLib.
 From CoreP Require Import Spec ProofsTop ProofsUnique ExModel.
 Import ListNotations.
 
-Theorem C13_facts_pinned : gen_query_facts = mkQueryFacts true true true.
+Theorem C13_facts_pinned : gen_query_facts = mkQueryFacts true true true true true.
 Proof. vm_compute. reflexivity. Qed.
 Print Assumptions C13_facts_pinned.
 
